@@ -5,47 +5,12 @@ import Verif.Spec.HtmlKnownDoc
 namespace Verif.Proofs.HtmlOptional
 open Verif.Model.Html Verif.Spec.HtmlOptional Verif.Spec.HtmlKnownDoc
 
-theorem isWs_eq (c : Char) : Verif.Model.HtmlAttr.isWhitespace c = isWsChar c := rfl
-
 theorem allWs_eq (d : List Char) : isAllWhitespace d = allWs d := by
   unfold isAllWhitespace allWs
   congr 1
 
-/-- what the `</p>` look-ahead has seen when it decides to omit -/
-theorem omitPEnd_next (rest : List HTok) (h : omitPEnd rest = true) :
-    nextOf rest = .eof ∨
-    (∃ n, nextOf rest = .end_ n ∧ has (tagTraits n) Verif.Gen.C03Tables.keepPTag = false) ∨
-    (∃ n, nextOf rest = .start n ∧ has (tagTraits n) Verif.Gen.C03Tables.omitPTag = true) := by
-  induction rest with
-  | nil => left; rfl
-  | cons t r ih =>
-    cases t with
-    | text d tm =>
-      simp only [omitPEnd] at h
-      split at h
-      · next hw =>
-        simp only [nextOf, ← allWs_eq, hw, if_true]
-        exact ih h
-      · simp at h
-    | endTag n d =>
-      simp only [omitPEnd, Bool.not_eq_true'] at h
-      right; left; exact ⟨n, rfl, h⟩
-    | startTag n a =>
-      simp only [omitPEnd] at h
-      right; right; exact ⟨n, rfl, h⟩
-    | comment d tx => simp [omitPEnd] at h
-    | doctype => simp [omitPEnd] at h
-    | svg d => simp [omitPEnd] at h
-    | math d => simp [omitPEnd] at h
-    | template d => simp [omitPEnd] at h
-
-/-- html/table.go: every tag with `omitPTag` is one of the standard's start tags that close a `p`;
-    every tag of the standard's "keep `</p>` inside" list carries `keepPTag` -/
-theorem p_tables_ok :
-    Verif.Gen.C03Tables.tagMap.all (fun e =>
-      (!has e.2 Verif.Gen.C03Tables.omitPTag || isOneOf e.1 pClosers) &&
-      (has e.2 Verif.Gen.C03Tables.keepPTag || !isOneOf e.1 pKeepParents)) = true := by
-  decide +kernel
+theorem hashIs_eq' {n : List Char} {x : String} (h : hashIs n x = true) : n = x.toList := by
+  simpa [hashIs, Verif.Model.Html.s] using h
 
 theorem lookup_mem'' {β : Type} (l : List (List Char × β)) (k : List Char) (v : β)
     (h : l.lookup k = some v) : (k, v) ∈ l := by
@@ -60,24 +25,60 @@ theorem lookup_mem'' {β : Type} (l : List (List Char × β)) (k : List Char) (v
       simp at h; subst h; subst this; simp
     · exact List.mem_cons_of_mem _ (ih h)
 
-theorem omit_p_allowed (rest : List HTok) (h : omitPEnd rest = true)
-    (ht : trigPEnd "p".toList (nextOf rest) = false) : mayOmitEnd "p".toList (nextOf rest) = true := by
-  rcases omitPEnd_next rest h with e | ⟨n, e, hk⟩ | ⟨n, e, ho⟩
+/-! ## `</p>` -/
+
+/-- what the `</p>` look-ahead has seen when it decides to omit -/
+theorem omitPEnd_next (rest : List HTok) (h : omitPEnd rest = true) :
+    nextOf rest = .eof ∨
+    (∃ n, nextOf rest = .end_ n ∧ tagTraits n ≠ 0 ∧ has (tagTraits n) Verif.Gen.C03Tables.keepPTag = false) ∨
+    (∃ n, nextOf rest = .start n ∧ has (tagTraits n) Verif.Gen.C03Tables.omitPTag = true) := by
+  induction rest with
+  | nil => left; rfl
+  | cons t r ih =>
+    cases t with
+    | text d tm =>
+      simp only [omitPEnd] at h
+      split at h
+      · next hw =>
+        simp only [nextOf, ← allWs_eq, hw, if_true]
+        exact ih h
+      · simp at h
+    | endTag n d =>
+      simp only [omitPEnd, Bool.and_eq_true, bne_iff_ne, ne_eq, Bool.not_eq_true'] at h
+      right; left; exact ⟨n, rfl, h.1, h.2⟩
+    | startTag n a =>
+      simp only [omitPEnd] at h
+      right; right; exact ⟨n, rfl, h⟩
+    | comment d tx => simp [omitPEnd] at h
+    | doctype => simp [omitPEnd] at h
+    | svg d => simp [omitPEnd] at h
+    | math d => simp [omitPEnd] at h
+    | template d => simp [omitPEnd] at h
+
+/-- html/table.go, whole table: every tag with `omitPTag` is one of the standard's start tags that close a `p`;
+    every tag of the standard's "keep `</p>` inside" list carries `keepPTag`; no known tag is a custom element name -/
+theorem p_tables_ok :
+    Verif.Gen.C03Tables.tagMap.all (fun e =>
+      (!has e.2 Verif.Gen.C03Tables.omitPTag || isOneOf e.1 pClosers) &&
+      (has e.2 Verif.Gen.C03Tables.keepPTag || !isOneOf e.1 pKeepParents) &&
+      !isCustomName e.1) = true := by
+  decide +kernel
+
+theorem omit_p_allowed (rest : List HTok) (h : omitPEnd rest = true) :
+    mayOmitEnd "p".toList (nextOf rest) = true := by
+  rcases omitPEnd_next rest h with e | ⟨n, e, hkn, hk⟩ | ⟨n, e, ho⟩
   · rw [e]; decide
-  · rw [e] at ht ⊢
-    simp only [trigPEnd, decide_true, Bool.true_and, Bool.or_eq_false_iff, Bool.not_eq_false',
-      decide_eq_false_iff_not] at ht
-    obtain ⟨⟨hc, hs⟩, hkn⟩ := ht
-    unfold knownToMinifier at hkn
+  · rw [e]
+    unfold tagTraits at hkn hk
     cases hl : Verif.Gen.C03Tables.tagMap.lookup n with
     | none => simp [hl] at hkn
     | some tr =>
       have hm := List.all_eq_true.mp p_tables_ok _ (lookup_mem'' _ _ _ hl)
-      simp only [tagTraits, hl, Option.getD_some] at hk
+      simp only [hl, Option.getD_some] at hk
       simp only [hk, Bool.false_or, Bool.and_eq_true, Bool.not_eq_true'] at hm
       have : mayOmitEnd "p".toList (.end_ n) = (!isOneOf n pKeepParents && !isCustomName n) := by
-        simp [mayOmitEnd, nextIsStart]
-      rw [this, hm.2, hc]; rfl
+        simp [mayOmitEnd, isDocElem, omitAtEnd, is]
+      rw [this, hm.1.2, hm.2]; rfl
   · rw [e]
     unfold tagTraits at ho
     cases hl : Verif.Gen.C03Tables.tagMap.lookup n with
@@ -87,18 +88,148 @@ theorem omit_p_allowed (rest : List HTok) (h : omitPEnd rest = true)
       simp only [hl, Option.getD_some] at ho
       simp only [ho, Bool.not_true, Bool.false_or, Bool.and_eq_true] at hm
       have : mayOmitEnd "p".toList (.start n) = isOneOf n pClosers := by
-        simp [mayOmitEnd, nextIsStart]
-      rw [this]; exact hm.1
+        simp [mayOmitEnd, isDocElem, closers, is]
+      rw [this]; exact hm.1.1
 
-theorem hashIs_eq' {n : List Char} {x : String} (h : hashIs n x = true) : n = x.toList := by
-  simpa [hashIs, Verif.Model.Html.s] using h
+/-! ## the end tags guarded by `endTagOmittable` -/
 
-theorem alwaysOmit_names (e : List Char) (h : alwaysOmitEnd.any (hashIs e) = true) :
-    isOneOf e alwaysOmitted = true := by
-  simp only [alwaysOmitEnd, List.any_cons, List.any_nil, Bool.or_false, Bool.or_eq_true] at h
-  simp only [isOneOf, names, alwaysOmitted, List.map_cons, List.map_nil, List.contains_cons, List.contains_nil,
-    Bool.or_false, Bool.or_eq_true, beq_iff_eq]
-  simp only [hashIs, Verif.Model.Html.s, beq_iff_eq] at h
-  exact h
+def omittedNames : List (List Char) := alwaysOmitEnd.map String.toList
+
+/-- every start tag that `closesBefore` accepts -/
+def closerNames : List (List Char) :=
+  ["li", "dt", "dd", "rb", "rt", "rtc", "rp", "option", "optgroup", "tbody", "tfoot", "thead", "tr", "td", "th"].map
+    String.toList
+
+theorem closesBefore_names (h n : List Char) (hc : closesBefore h n = true) : n ∈ closerNames := by
+  by_cases hm : n ∈ closerNames
+  · exact hm
+  · exfalso
+    simp only [closerNames, List.map_cons, List.map_nil, List.mem_cons, List.mem_nil_iff, or_false, not_or] at hm
+    have f : ∀ x : String, n ≠ x.toList → hashIs n x = false := by
+      intro x hx
+      cases hh : hashIs n x with
+      | false => rfl
+      | true => exact absurd (hashIs_eq' hh) hx
+    obtain ⟨h1, h2, h3, h4, h5, h6, h7, h8, h9, h10, h11, h12, h13, h14, h15⟩ := hm
+    have : closesBefore h n = false := by
+      unfold closesBefore
+      simp only [f _ h1, f _ h2, f _ h3, f _ h4, f _ h5, f _ h6, f _ h7, f _ h8, f _ h9, f _ h10, f _ h11, f _ h12,
+        f _ h13, f _ h14, f _ h15, Bool.or_self, ite_self]
+    rw [this] at hc; exact absurd hc (by decide)
+
+/-- what `endTagOmittable` has seen when it answers yes -/
+theorem endTagOmittable_next (h : List Char) (rest : List HTok) (ho : endTagOmittable h rest = true) :
+    (hashIs h "option" = true ∧ nextOf rest = .other) ∨ nextOf rest = .eof ∨ (∃ n, nextOf rest = .end_ n) ∨
+    (∃ n, nextOf rest = .start n ∧ closesBefore h n = true) := by
+  induction rest with
+  | nil => right; left; rfl
+  | cons t r ih =>
+    cases t with
+    | text d tm =>
+      simp only [endTagOmittable] at ho
+      split at ho
+      · next hw =>
+        by_cases hws : isAllWhitespace d = true
+        · simp only [nextOf, ← allWs_eq, hws, if_true]; exact ih ho
+        · simp only [hws, Bool.false_or] at hw
+          left; refine ⟨hw, ?_⟩
+          simp only [nextOf, ← allWs_eq, hws, Bool.false_eq_true, if_false]
+      · simp at ho
+    | comment d tx => simp only [endTagOmittable] at ho; simp only [nextOf]; exact ih ho
+    | template d =>
+      simp only [endTagOmittable] at ho
+      split at ho
+      · next hw => left; exact ⟨hw, rfl⟩
+      · simp at ho
+    | endTag n d => right; right; left; exact ⟨n, rfl⟩
+    | startTag n a => simp only [endTagOmittable] at ho; right; right; right; exact ⟨n, rfl, ho⟩
+    | doctype => simp [endTagOmittable] at ho
+    | svg d => simp [endTagOmittable] at ho
+    | math d => simp [endTagOmittable] at ho
+
+/-- finite check: for every unconditionally handled element and every start tag that `closesBefore` accepts, and
+    for the end of the parent: allowed by the content models ⇒ allowed by the optional-tag rule -/
+theorem omittable_finite :
+    omittedNames.all (fun h =>
+      closerNames.all (fun n => !(closesBefore h n && conformingAfter h (.start n)) || mayOmitEnd h (.start n)) &&
+      (!conformingAfter h .eof || mayOmitEnd h .eof) &&
+      (!conformingAfter h (.end_ []) || mayOmitEnd h (.end_ [])) &&
+      (!(h = "option".toList) || !conformingAfter h .other) && !(h = "p".toList)) = true := by
+  decide +kernel
+
+theorem end_indep (h n : List Char) (hp : h ≠ "p".toList) :
+    mayOmitEnd h (.end_ n) = mayOmitEnd h (.end_ []) ∧ conformingAfter h (.end_ n) = conformingAfter h (.end_ []) := by
+  have : is h "p" = false := by unfold is; exact decide_eq_false hp
+  constructor
+  · simp [mayOmitEnd, this]
+  · unfold conformingAfter
+    cases allowedAfter h <;> simp [nextIsStart]
+
+theorem omit_always_allowed (h : List Char) (rest : List HTok) (hm : h ∈ omittedNames)
+    (ho : endTagOmittable h rest = true) (hc : conformingAfter h (nextOf rest) = true) :
+    mayOmitEnd h (nextOf rest) = true := by
+  have hf := List.all_eq_true.mp omittable_finite h hm
+  simp only [Bool.and_eq_true, Bool.or_eq_true, Bool.not_eq_true', decide_eq_false_iff_not, List.all_eq_true] at hf
+  obtain ⟨⟨⟨⟨hstart, heof⟩, hend⟩, hother⟩, hnp⟩ := hf
+  rcases endTagOmittable_next h rest ho with ⟨hopt, e⟩ | e | ⟨n, e⟩ | ⟨n, e, hcl⟩
+  · rw [e] at hc
+    rcases hother with h1 | h1
+    · exact absurd (hashIs_eq' hopt) h1
+    · rw [h1] at hc; exact absurd hc (by decide)
+  · rw [e] at hc ⊢
+    rcases heof with h1 | h1
+    · rw [h1] at hc; exact absurd hc (by decide)
+    · exact h1
+  · rw [e] at hc ⊢
+    have hi := end_indep h n hnp
+    rw [hi.1]; rw [hi.2] at hc
+    rcases hend with h1 | h1
+    · rw [h1] at hc; exact absurd hc (by decide)
+    · exact h1
+  · rw [e] at hc ⊢
+    rcases hstart n (closesBefore_names h n hcl) with h1 | h1
+    · simp only [hcl, Bool.true_and] at h1; rw [h1] at hc; exact absurd hc (by decide)
+    · exact h1
+
+/-! ## `</optgroup>` -/
+
+theorem omitOptgroupEnd_next (rest : List HTok) (h : omitOptgroupEnd rest = true) :
+    nextOf rest = .other ∨ nextOf rest = .eof ∨ (∃ n, nextOf rest = .end_ n) ∨
+    nextOf rest = .start "optgroup".toList := by
+  induction rest with
+  | nil => right; left; rfl
+  | cons t r ih =>
+    cases t with
+    | text d tm =>
+      simp only [omitOptgroupEnd] at h
+      simp only [nextOf]
+      split
+      · exact ih h
+      · left; rfl
+    | comment d tx => simp only [omitOptgroupEnd] at h; simp only [nextOf]; exact ih h
+    | endTag n d => right; right; left; exact ⟨n, rfl⟩
+    | startTag n a =>
+      simp only [omitOptgroupEnd] at h
+      right; right; right
+      simp only [nextOf]; rw [hashIs_eq' h]
+    | doctype => simp [omitOptgroupEnd] at h
+    | svg d => simp [omitOptgroupEnd] at h
+    | math d => simp [omitOptgroupEnd] at h
+    | template d => simp [omitOptgroupEnd] at h
+
+theorem omit_optgroup_allowed (rest : List HTok) (h : omitOptgroupEnd rest = true)
+    (hc : conformingAfter "optgroup".toList (nextOf rest) = true) :
+    mayOmitEnd "optgroup".toList (nextOf rest) = true := by
+  rcases omitOptgroupEnd_next rest h with e | e | ⟨n, e⟩ | e
+  · rw [e] at hc; exact absurd hc (by decide)
+  · rw [e]; decide
+  · rw [e]; simp [mayOmitEnd, isDocElem, omitAtEnd, is]
+  · rw [e]; decide
+
+theorem alwaysOmit_mem (e : List Char) (h : alwaysOmitEnd.any (hashIs e) = true) : e ∈ omittedNames := by
+  simp only [List.any_eq_true] at h
+  obtain ⟨x, hx, hh⟩ := h
+  rw [hashIs_eq' hh]
+  exact List.mem_map_of_mem hx
 
 end Verif.Proofs.HtmlOptional
